@@ -455,6 +455,56 @@ def emit(name, seed, nq, ne):
         w('    pool.install(|| { let result = w.par_query(Query::<%s, %s>::new()); par_consume(term, result.iter.map(move |%s| { %s })) })' % (vt, flt_ty(f, ''), rpat, mk))
         w('}')
 
+    # ---------------- resource views (C15): subsets x orders x mutability of the 4-resource list
+    RES_TY = ['ResNum<0>', 'ResStr<1>', 'ResZst<2>', 'ResWide<3>']
+    res_views = []
+    if name in ('r6', 'r1'):
+        rrng = random.Random('resviews-%s-%d' % (name, seed))
+        for mask in range(1, 16):
+            idxs = [i for i in range(4) if mask >> i & 1]
+            variants = [(list(idxs), [False] * len(idxs)), (list(reversed(idxs)), [True] * len(idxs))]
+            if len(idxs) >= 2:
+                # Only orderings that type-check: on the pinned commit 24 of the 60 orderings of 2-4
+                # resource views (e.g. Views!(&mut R1, &mut R2, &mut R0)) fail type inference in
+                # brood's reshaping, so they cannot be part of a run-time check (measured with a
+                # generated program per ordering; reported as an observation in DESIGN.md).
+                OK_RANKS = {2: [(0, 1), (1, 0)], 3: [(0, 1, 2), (0, 2, 1), (1, 0, 2), (2, 1, 0)],
+                            4: [(0, 1, 2, 3), (0, 1, 3, 2), (0, 2, 1, 3), (0, 3, 2, 1), (1, 0, 2, 3), (1, 0, 3, 2), (2, 1, 0, 3), (3, 2, 1, 0)]}
+                for ranks in OK_RANKS[len(idxs)]:
+                    perm = [idxs[r] for r in ranks]
+                    variants.append((perm, [rrng.random() < 0.6 for _ in perm]))
+            for order, muts in variants:
+                rv = list(zip(order, muts))
+                if rv not in res_views:
+                    res_views.append(rv)
+        res_views.append([])
+        if name == 'r1':
+            res_views = res_views[::4]
+    w('static RES_VIEWS: &[ResViewMeta] = &[%s];' % ', '.join('ResViewMeta { views: &[%s] }' % ', '.join('(%d, %s)' % (i, 'true' if m else 'false') for i, m in rv) for rv in res_views))
+    for ri, rv in enumerate(res_views):
+        def rty(lt):
+            l = ("'%s " % lt) if lt else ''
+            return 'Views!(%s)' % ', '.join(('&%smut %s' if m else '&%s%s') % (l, RES_TY[i]) for i, m in rv)
+        names = ['r%d' % k for k in range(len(rv))]
+        rpat = 'result!(%s)' % ', '.join(names)
+        body = ' '.join('out.push((%d, %s.observe_res(salt)));' % (i, names[k]) for k, (i, m) in enumerate(rv))
+        w('struct RSys%d { salt: Option<u32>, out: Vec<(u8, (Obs, Obs))> }' % ri)
+        w('impl System for RSys%d {' % ri)
+        w("    type Filter = filter::None; type Views<'a> = Views!(); type ResourceViews<'a> = %s; type EntryViews<'a> = Views!();" % rty('a'))
+        w("    fn run<'a, R_, S, I, E>(&mut self, query_result: brood::query::Result<'a, R_, S, I, Self::ResourceViews<'a>, Self::EntryViews<'a>, E>) where R_: ContainsViews<'a, Self::EntryViews<'a>, E>, I: Iterator<Item = Self::Views<'a>> {")
+        w('        let salt = self.salt; let out = &mut self.out; let %s = query_result.resources; %s' % (rpat, body))
+        w('    }')
+        w('}')
+        w('fn rv%d(w: &mut W, path: u8, salt: Option<u32>) -> Vec<(u8, (Obs, Obs))> {' % ri)
+        w('    let mut out = Vec::new();')
+        w('    match path % 3 {')
+        w('        0 => { let %s = w.view_resources::<%s, _>(); %s }' % (rpat, rty(''), body))
+        w('        1 => { let result = w.query(Query::<Views!(), filter::None, %s>::new()); let %s = result.resources; %s }' % (rty(''), rpat, body))
+        w('        _ => { let mut s = RSys%d { salt, out: Vec::new() }; w.run_system(&mut s); out = s.out; }' % ri)
+        w('    }')
+        w('    out')
+        w('}')
+
     # ---------------- Reg impl
     w('impl Reg for Rg {')
     w('    const NAME: &\'static str = "%s"; const N: usize = %d; type W = W;' % (name, n))
@@ -539,6 +589,8 @@ def emit(name, seed, nq, ne):
     w('    fn queries() -> &\'static [QueryMeta] { QUERIES }')
     w('    fn run_query(w: &mut W, q: usize, mode: QMode, salt: Option<u32>) -> QueryOut { match q { %s _ => unreachable!() } }' % ' '.join('%d => q%d(w, mode, salt),' % (i, i) for i in range(len(queries))))
     w('    fn entry_query(w: &mut W, id: Id, q: usize, salt: Option<u32>) -> Option<Option<QRow>> { match q { %s _ => unreachable!() } }' % ' '.join('%d => eq%d(w, id, salt),' % (i, i) for i in range(len(queries))))
+    w('    fn res_views() -> &\'static [ResViewMeta] { RES_VIEWS }')
+    w('    fn run_res_view(w: &mut W, rv: usize, path: u8, salt: Option<u32>) -> Vec<(u8, (Obs, Obs))> { match rv { %s _ => unreachable!() } }' % ' '.join('%d => rv%d(w, path, salt),' % (i, i) for i in range(len(res_views))))
     w('    fn par_queries() -> &\'static [usize] { PAR_QUERIES }')
     w('    fn run_par_query(w: &mut W, q: usize, term: PTerm, salt: Option<u32>, pool: &rayon::ThreadPool) -> ParOut { match q { %s _ => unreachable!() } }' % ' '.join('%d => pq%d(w, term, salt, pool),' % (i, i) for i in pick))
     w('    fn entry_metas() -> &\'static [EntryMeta] { ENTRIES }')
